@@ -18,6 +18,7 @@ import (
 
 	"github.com/go-jose/go-jose/v4"
 
+	"github.com/dadrus/heimdall/internal/cache"
 	"github.com/dadrus/heimdall/internal/config"
 	"github.com/dadrus/heimdall/internal/keystore"
 	ck "github.com/dadrus/heimdall/internal/verif/cachekit"
@@ -27,10 +28,15 @@ import (
 )
 
 type env struct {
-	r       *core.Run
-	dir     string
-	srv     *ck.Servers
-	pki     *ck.PKI
+	r   *core.Run
+	dir string
+	srv *ck.Servers
+	pki *ck.PKI
+	// pki2 is a second, independent root CA: what one trust store accepts the other one refuses; trustBoth holds both roots
+	pki2      *ck.PKI
+	trustBoth string
+	// conc: the pair cases which are also executed as overlapping requests against a gated remote system
+	conc    []pairCase
 	a       *app.App
 	signer  string
 	nonce   int
@@ -119,6 +125,16 @@ func (e *env) signedWith(h http.Header) string {
 	return strings.Join(notes, "; ")
 }
 
+// writeTrustBoth writes a trust store holding the root certificates of both CAs.
+func (e *env) writeTrustBoth(dir string) error {
+	pem, err := pemx.BuildPEM(pemx.WithX509Certificate(e.pki.CA.Certificate), pemx.WithX509Certificate(e.pki2.CA.Certificate))
+	if err != nil {
+		return err
+	}
+	e.trustBoth = filepath.Join(dir, fmt.Sprintf("trust-both-%d.pem", os.Getpid()))
+	return os.WriteFile(e.trustBoth, pem, 0o600)
+}
+
 func (e *env) next() string { e.nonce++; return fmt.Sprintf("n%d", e.nonce) }
 
 // mstep is one mechanism execution: which mechanism (prototype + rule level config) sees which request.
@@ -130,7 +146,7 @@ type mstep struct {
 }
 
 // exec creates the mechanism through the real factory (fresh evaluation of the rule level config) and runs it.
-func (e *env) exec(ms mstep, c *ck.RecCache) ck.Outcome {
+func (e *env) exec(ms mstep, c cache.Cache) ck.Outcome {
 	var ov config.MechanismConfig
 	if ms.Override != nil {
 		ov = config.MechanismConfig(deepCopy(ms.Override).(map[string]any))
@@ -206,6 +222,7 @@ func TestC11(t *testing.T) {
 		"(certificates of an untrusted CA / with the wrong key usage).")
 	r.Assume("test servers answer as a pure function of the received request (method, URI, Authorization/Cookie/Content-Type/Accept/X-* headers, body)",
 		"JWTs issued by the jwt finalizer are compared by their JOSE header, their claims without iat/nbf/exp/jti and the key their signature verifies with",
+		"Authorization values differing only in what RFC 9110 declares insignificant (case of the scheme, number of blanks) are never paired with each other: a cache may treat them as equal",
 		"two values of different kinds (float64 / int / string as json.Number) are different values for the pipeline even if they render to the same JSON text: CEL has no overloads across them")
 
 	dir := os.Getenv("VERIF_RUNDIR")
@@ -217,6 +234,14 @@ func TestC11(t *testing.T) {
 	var err error
 	if e.pki, err = ck.NewPKI(dir); err != nil {
 		r.Inconclusive("pki: " + err.Error())
+		r.End()
+	}
+	if e.pki2, err = ck.NewPKI(dir); err != nil {
+		r.Inconclusive("pki: " + err.Error())
+		r.End()
+	}
+	if err = e.writeTrustBoth(dir); err != nil {
+		r.Inconclusive("trust store: " + err.Error())
 		r.End()
 	}
 	if e.signer, err = ck.WriteSignerKeyStore(dir); err != nil {
@@ -236,12 +261,17 @@ func TestC11(t *testing.T) {
 
 	e.determinism()
 	e.pairs()
+	e.concurrent()
 
 	r.Require("determinism_cases_with_reuse", r.Counter("determinism_nontrivial"), 20)
 	r.Require("nontrivial_pairs", r.Counter("pairs_nontrivial"), 60)
 	r.Require("cache_hits", r.Counter("cache_hits"), 500)
 	r.Require("issued_jwts_signature_checked", r.Counter("issued_jwts_signature_checked"), 100)
 	r.Require("outcomes_with_value_kinds_compared", r.Counter("outcomes_with_value_kinds_compared"), 200)
+	r.Require("concurrent_overlapping_pairs", r.Counter("concurrent_overlapping"), 100)
+	r.Require("concurrent_overlapping_pairs_with_different_outcomes", r.Counter("concurrent_nontrivial"), 50)
+	r.Require("http_cache_authorization_shape_pairs_nontrivial", r.Counter("authorization_shape_pairs_nontrivial"), 40)
+	r.Require("trust_store_pairs_nontrivial", r.Counter("trust_store_pairs_nontrivial"), 20)
 	r.End()
 }
 
@@ -390,6 +420,12 @@ func (e *env) runPair(pc pairCase) {
 		if nontrivial {
 			e.r.Count("pairs_nontrivial", 1)
 			e.r.Count("pairs_nontrivial_component:"+pc.Mechanism+"/"+pc.Component, 1)
+			switch comp, _, _ := strings.Cut(pc.Component, ":"); comp {
+			case "http-authorization-shape":
+				e.r.Count("authorization_shape_pairs_nontrivial", 1)
+			case "trust-store-of-other-prototype":
+				e.r.Count("trust_store_pairs_nontrivial", 1)
+			}
 		}
 		if os.Getenv("VERIF_DEBUG") != "" {
 			fmt.Printf("DEBUG pair %s/%s %s nontrivial=%v hits=%d: %s\n", pc.Mechanism, pc.Component, order, nontrivial, hits, core.JSON(rec.Steps))
@@ -510,6 +546,14 @@ func pairSignature(pc pairCase, bad stepCmp) string {
 	case "http-vary-header":
 		if bad.Hit {
 			return "httpcache-ignores-vary"
+		}
+	case "trust-store-of-other-prototype":
+		if bad.Hit && bad.CacheOn.Err == "" && bad.CacheOff.Err == "authentication" {
+			return "cached-jwk-validated-with-other-trust-store:" + m
+		}
+	case "http-authorization-shape":
+		if bad.Hit {
+			return "httpcache-entry-shared-across-authorization-values:" + format
 		}
 	case "response-number-in-expression", "rule-level-numeric-expression", "response-list-and-object-in-expression":
 		if bad.Hit && bad.CacheOn.Err != bad.CacheOff.Err {
